@@ -469,3 +469,42 @@ fn arc_put_leakcheck() {
     drop(c);
     assert!(conserved(created, 0), "[C04.drop] dropping the cache releases every retained key and value exactly once");
 }
+
+// ------------------------------------------------------------------ ownership with heap-owning values (C04), cheap variant
+// (see harness_segmented.rs: V = Box<u8>, double drops / use after free are CBMC failures by themselves)
+type ArcB = AdaptiveCache<u8, alloc::boxed::Box<u8>, PoisonHasher, PoisonHasher, PoisonHasher, PoisonHasher>;
+
+#[kani::proof]
+#[kani::unwind(6)]
+fn arc_put_boxed_values() {
+    let size: usize = kani::any();
+    let p: usize = kani::any();
+    kani::assume(size >= 1 && size <= N && p <= size);
+    let t1 = any_abs(N, 1);
+    let t2 = any_abs(N, 1);
+    let b1 = any_abs(N, 1);
+    let b2 = any_abs(N, 1);
+    kani::assume(t1.cap == size && t2.cap == size && b1.cap == size && b2.cap == size && t1.n + t2.n <= size);
+    kani::assume(partitioned(&[&t1, &t2, &b1, &b2]));
+    let mk = |a: &Abs| RawLRU::<u8, alloc::boxed::Box<u8>, DefaultEvictCallback, PoisonHasher>::verif_from_parts(a.cap, PoisonHasher, None, a.n, |i| (a.k[i], alloc::boxed::Box::new(a.v[i])));
+    let mut c: ArcB = AdaptiveCache::verif_from_parts(size, p, mk(&t1), mk(&b1), mk(&t2), mk(&b2));
+    let k: u8 = kani::any();
+    let v: u8 = kani::any();
+    kani::cover!(b1.has(k) && t1.n + t2.n == size, "arc boxed put: ghost hit in a full cache");
+    kani::cover!(holders(&[&t1, &t2, &b1, &b2], k) == 0 && t1.n + t2.n == size && b2.n == size, "arc boxed put: new key while the frequent ghost list is full");
+    let r = c.put(k, alloc::boxed::Box::new(v));
+    let back = match &r {
+        PutResult::Put => None,
+        PutResult::Update(o) => Some(**o),
+        PutResult::Evicted { value, .. } => Some(**value),
+        PutResult::EvictedAndUpdate { update, .. } => Some(**update),
+    };
+    if let Some(x) = lookup(&[&t1, &t2, &b1, &b2], k) {
+        assert!(back == Some(x), "[C04.handback][C12.result] the old value handed back by an update or revival is the stored one, still alive");
+    }
+    drop(r);
+    let (post, wf) = c.verif_check();
+    assert!(wf, "[C03.wf] lists well formed with heap-owning values");
+    assert!(lookup(&[&post.recent, &post.frequent], k) == Some(v), "[C04.alive][C02.value] the stored value is alive and is the one just put");
+    c.verif_forget();
+}
